@@ -7,7 +7,8 @@
    simulations (SrcTie3Reader.v, SrcTie3ReaderRT.v); nothing is reproved.
    Not generated: the rewind `src.rewind()` of from_config between footer and first use (written here as
    in Reader.ropen), bincode's byte layout of the footer (Blocks.parse_footer_map inside
-   SrcTie3Reader.bincode_model) and ArchiveFileBlock::from = Blocks.parse_block (the L3 link). *)
+   SrcTie3Reader.bincode_model).  ArchiveFileBlock::from is generated too since work package blockT
+   (gen/Src3b.v, SrcTie3Block.block_from_src). *)
 From MLA Require Import Limit.
 From MLA Require Import Base Stream Blocks Writer Reader RoundTripBlocks RoundTripFooter
   RoundTripReader RoundTripWriter RoundTripRun RoundTripGlue RoundTrip SrcTie2 SrcTie3Reader SrcTie3ReaderRT CarryWriter.
